@@ -19,6 +19,11 @@ def numeric_cases(ctx, n):
         out.append({'seed': r.randint(0, 10**6), 'variant': r.choice(['flat', 'perlayer']), 'secure': r.random() < 0.4,
                     'nm': r.choice([0, 0.5, 1.0, 2.5]), 'C': r.choice([0.1, 1.0, 3.0]), 'B': r.choice([1, 4, 7]),
                     'red': r.choice(['mean', 'sum']), 'usergen': r.random() < 0.6, 'n': r.choice([1, 3, 5])})
+    # statistical sanity of the released noise (a TEST of the assumed Gaussian law / independence, not part of the proof)
+    for secure in (False, True):
+        for _ in range(1 if not ctx.thorough else 6):
+            out.append({'stat': True, 'seed': r.randint(0, 10**6), 'secure': secure, 'nm': r.choice([0.5, 1.0, 2.5]), 'C': r.choice([0.1, 1.0, 3.0]),
+                        'variant': 'flat', 'red': 'sum'})
     return out
 
 
@@ -26,7 +31,7 @@ def run_numeric(ctx, n):
     cases = numeric_cases(ctx, n)
     res = vlib.run_impl('noise_props.py', {'cases': cases}, timeout=3600)['results']
     for c, r in zip(cases, res):
-        ctx.case(c, nontrivial=c['nm'] != 0, kind='numeric/%s/secure=%s' % (c['variant'], c['secure']))
+        ctx.case(c, nontrivial=c['nm'] != 0, kind=('stat' if c.get('stat') else 'numeric') + '/%s/secure=%s' % (c['variant'], c['secure']))
         if r['error']:
             ctx.fail('noise-harness-error', r['error'], c)
         for b in r['bad'][:1]:
